@@ -330,6 +330,6 @@ def execute(cases_, tier, seed):
     res.bound = "tier=%s: %d target kinds x all assignments of %d settings features with <=%d on; 11 use sites per document; %d behaviourally probed types" % (
         tier, len(TARGETS), len(FEATURES), 1 if tier == "quick" else 3, len(PROBED)) + (" (k<=2 for the struct target)" if tier == "quick" else "")
     res.assumptions = ["replacement/conversion/map target types live in verif_support::ext and meet exactly the documented requirements"]
-    if len(cases_) > 10 and len(vectors) < 20:
+    if not res.violations and (len(cases_) > 10 and len(vectors) < 20):   # a subject that breaks everything is reported through its violations, not as vacuity
         raise MachineryError("vacuity guard: %d behavioural vectors" % len(vectors))
     return res
